@@ -301,6 +301,10 @@ fn family_substitution(thorough: bool) -> Vec<Case> {
                     }
                     let use_args = if pl.len() == 1 { a0.to_string() } else { format!("{}, {}", a0, a1) };
                     out.push(Case { family: "substitution", defs: vec![helper.clone(), def.clone()], data: DATA.into(), code: format!("start:\nm({})\nhlt\n", use_args) });
+                    // the same use inside a procedure, and twice in a row with a label in between
+                    if (i0 + i1) % 4 == 0 || thorough {
+                        out.push(Case { family: "substitution-in-proc", defs: vec![helper.clone(), def.clone()], data: DATA.into(), code: format!("def f {{\ncmc\nm({})\nq9:\nm({})\n}}\nstart:\ncall f\n", use_args, use_args) });
+                    }
                 }
             }
         }
